@@ -128,6 +128,15 @@ Theorem C12_strip_exact_pis : forall rc l,
   /\ filter is_comment (filter (keep rc true) l) = (if rc then [] else filter is_comment l).
 Proof. intros rc l. split; [exact (filter_keep_no_pi rc l)|exact (filter_keep_comments rc l)]. Qed.
 Print Assumptions C12_strip_exact_pis.
+(* ... and none anywhere inside the root of the model's strip_node (the claim H_strip_root makes about libxml2) *)
+Theorem C12_strip_root_no_comment : forall rp n,
+  is_comment n = false -> count_kind is_comment (strip_node true rp n) = 0%nat.
+Proof. exact strip_node_no_comment. Qed.
+Print Assumptions C12_strip_root_no_comment.
+Theorem C12_strip_root_no_pi : forall rc n,
+  is_pi n = false -> count_kind is_pi (strip_node rc true n) = 0%nat.
+Proof. exact strip_node_no_pi. Qed.
+Print Assumptions C12_strip_root_no_pi.
 Theorem C12_strip_none : forall l, filter (keep false false) l = l.
 Proof. exact filter_keep_ff. Qed.
 Print Assumptions C12_strip_none.
